@@ -57,8 +57,14 @@ def run(ctx, rep):
             rep.add("R1", "rules.json", f"rule '{k}'", "rule defined twice in rules.json (the later definition wins silently)")
 
     # ---- dispatch arms (what content rule names are implemented)
-    _fi, _loop, _var, arms, fall = content_dispatch(prog)
-    implemented = set(arms)
+    try:
+        _fi, _loop, _var, arms, fall = content_dispatch(prog)
+        implemented = set(arms)
+    except AnalysisError as ex:
+        # the dispatch has a shape this extractor does not read: which names are implemented is C02-R1's question (its check
+        # reports the unreadable dispatch); the table rules here go on without that one clause
+        implemented = None
+        rep.notes.append(f"content dispatch not read ({ex}): the 'content rule is implemented' clause of R2 is left to C02-R1")
 
     # ---- R2 shape of every rule
     pe = PEval(ctx.world)
@@ -91,7 +97,7 @@ def run(ctx, rep):
         else:
             for c in cr:
                 rep.count("content rule uses")
-                ok = c in implemented
+                ok = implemented is None or c in implemented
                 rep.oblige(("R2c", rname, c), ok)
                 if not ok:
                     rep.add("R2", where, f"content rule '{c}'",
@@ -191,7 +197,7 @@ def run(ctx, rep):
                 return False
             if "emptyContent" in cr:
                 return False
-        if any(c not in implemented for c in cr):
+        if implemented is not None and any(c not in implemented for c in cr):
             return False
         return True
 
@@ -255,7 +261,7 @@ def run(ctx, rep):
     rep.extra["side_output"] = {
         "rules_present_but_unmapped": unmapped_rules,
         "name_constants_unmapped": unmapped_names[:60],
-        "implemented_content_rules": sorted(implemented),
+        "implemented_content_rules": sorted(implemented) if implemented is not None else None,
     }
     rep.extra["table_rows_visited"] = {"node_mappings": len(T.mapping), "rules": len(rules)}
     for s in list(sorted(T.mapping.items()))[:3]:
